@@ -728,3 +728,1186 @@ Proof.
     rewrite !extend_full by (try rewrite Hnf; try rewrite Hlen; fold n; fold len; lia).
     repeat split; try assumption; lia.
 Qed.
+
+(* ------------------------------------------------------------------ *)
+(* Validation: lookups, locality, all adjacent pairs *)
+
+Definition hash_inj (l : list hdr) : Prop :=
+  forall x y, In x l -> In y l -> hid x = hid y -> x = y.
+Definition retarget_ok (P : params) : Prop := p_noretarget P = true \/ 1 <= p_bpr P.
+
+Lemma collect_times_local n look1 look2 : forall h t,
+  (forall k, k < h -> look1 k = look2 k) ->
+  collect_times n look1 h t = collect_times n look2 h t.
+Proof.
+  induction n as [|n IH]; intros h t Hk; [reflexivity|].
+  cbn [collect_times]. f_equal. destruct (h <=? 0); [reflexivity|].
+  rewrite (Hk (h - 1)) by lia. destruct (look2 (h - 1)); [|reflexivity].
+  apply IH. intros k Hlt. apply Hk. lia.
+Qed.
+
+Lemma pair_ok_local P look1 look2 p ph ce :
+  retarget_ok P -> 0 <= ph -> (forall k, k <= ph -> look1 k = look2 k) ->
+  pair_ok P look1 (p, ph) ce = pair_ok P look2 (p, ph) ce.
+Proof.
+  intros HR Hph Hk. destruct ce as [c ch]. unfold pair_ok, ctx_ok.
+  assert (He : expected_bits P look1 ph p = expected_bits P look2 ph p).
+  { unfold expected_bits. destruct (p_noretarget P) eqn:En; [reflexivity|].
+    destruct HR as [HR|HR]; [congruence|].
+    destruct (negb ((ph + 1) mod p_bpr P =? 0)); [reflexivity|].
+    rewrite (Hk (Z.max 0 (ph - (p_bpr P - 1)))) by lia. reflexivity. }
+  assert (Hm : mtp look1 ph p = mtp look2 ph p).
+  { unfold mtp. rewrite (collect_times_local 11 look1 look2 ph (htime p)); [reflexivity|].
+    intros k Hlt. apply Hk. lia. }
+  rewrite He, Hm. reflexivity.
+Qed.
+
+Lemma pair_ok_link P look pe ce : pair_ok P look pe ce = true -> hprev (fst ce) = hid (fst pe).
+Proof. destruct pe as [p ph], ce as [c ch]. unfold pair_ok. cbn [fst]. lia. Qed.
+
+Lemma pairs_ok_ext ok1 ok2 : (forall a c, ok1 a c = ok2 a c) ->
+  forall l x, pairs_ok ok1 x l = pairs_ok ok2 x l.
+Proof. intros He. induction l as [|y r IH]; intros x; cbn [pairs_ok]; [reflexivity|]. now rewrite He, IH. Qed.
+
+Lemma validate_chunks_ext P look1 look2 n :
+  (forall pe ce, pair_ok P look1 pe ce = pair_ok P look2 pe ce) ->
+  forall fuel last l, validate_chunks fuel P look1 n last l = validate_chunks fuel P look2 n last l.
+Proof.
+  intros He. induction fuel as [|k IH]; intros last l; [reflexivity|].
+  cbn [validate_chunks]. destruct l as [|x r]; [reflexivity|].
+  rewrite IH. f_equal. f_equal.
+  - unfold validate_batch. destruct (firstn n (x :: r)) as [|y [|z t]]; try reflexivity.
+    now apply pairs_ok_ext.
+  - destruct last; [apply He | reflexivity].
+Qed.
+
+Lemma lastd_indep {A} (l : list A) d d' : l <> [] -> lastd l d = lastd l d'.
+Proof.
+  induction l as [|x r IH]; [congruence|]. intros _. destruct r as [|y r']; [reflexivity|].
+  change (lastd (y :: r') d = lastd (y :: r') d'). apply IH. discriminate.
+Qed.
+
+Lemma pairs_ok_app ok : forall r1 x r2,
+  pairs_ok ok x (r1 ++ r2) = pairs_ok ok x r1 && pairs_ok ok (lastd (x :: r1) x) r2.
+Proof.
+  induction r1 as [|y r1 IH]; intros x r2; [reflexivity|].
+  cbn [app pairs_ok]. rewrite IH, andb_assoc.
+  rewrite (lastd_cons x (y :: r1) x) by discriminate.
+  rewrite (lastd_indep (y :: r1) y x) by discriminate. reflexivity.
+Qed.
+
+Definition all_pairs (ok : bent -> bent -> bool) (last : option bent) (l : list bent) : bool :=
+  match last with
+  | Some p => pairs_ok ok p l
+  | None => match l with [] => true | x :: r => pairs_ok ok x r end
+  end.
+
+Lemma validate_chunks_pairs P look n : (1 <= n)%nat ->
+  forall fuel last l, (length l < fuel)%nat ->
+  validate_chunks fuel P look n last l = true -> all_pairs (pair_ok P look) last l = true.
+Proof.
+  intros Hn. induction fuel as [|k IH]; intros last l Hlen Hv; [lia|].
+  destruct l as [|x l']; [destruct last; reflexivity|].
+  cbn [validate_chunks] in Hv.
+  destruct n as [|m]; [lia|]. cbn [firstn skipn] in Hv.
+  apply andb_true_iff in Hv. destruct Hv as [Hv Hrec].
+  apply andb_true_iff in Hv. destruct Hv as [Hb Hl].
+  apply IH in Hrec; [|cbn [length] in Hlen; rewrite skipn_length; lia].
+  cbn [all_pairs] in Hrec.
+  assert (Hc : pairs_ok (pair_ok P look) x (firstn m l') = true).
+  { unfold validate_batch in Hb. destruct (firstn m l'); [reflexivity | exact Hb]. }
+  assert (Hall : pairs_ok (pair_ok P look) x l' = true).
+  { rewrite <- (firstn_skipn m l'). rewrite pairs_ok_app, Hc, Hrec. reflexivity. }
+  unfold all_pairs. destruct last; cbn [pairs_ok]; [now rewrite Hl, Hall | exact Hall].
+Qed.
+
+(* every two adjacent headers of [L] (first element at height [h0]) pass the
+   pair validation *)
+Definition chain_from (P : params) (look : Z -> option hdr) (L : list hdr) (h0 : Z) : Prop :=
+  forall i x y, nth_error L i = Some x -> nth_error L (S i) = Some y ->
+  pair_ok P look (x, h0 + Z.of_nat i) (y, h0 + Z.of_nat i + 1) = true.
+
+Lemma pairs_ok_chain P look : forall L x h,
+  pairs_ok (pair_ok P look) (x, h) (with_heights L (h + 1)) = true <-> chain_from P look (x :: L) h.
+Proof.
+  induction L as [|y r IH]; intros x h.
+  - split; [|reflexivity]. intros _ i a c Ha Hc. destruct i; cbn in Hc; [discriminate | destruct i; discriminate].
+  - cbn [with_heights pairs_ok]. rewrite andb_true_iff, IH. split.
+    + intros [H1 H2] i a c Ha Hc. destruct i as [|i].
+      * cbn in Ha, Hc. inversion Ha; inversion Hc; subst. replace (h + Z.of_nat 0) with h by lia. exact H1.
+      * cbn [nth_error] in Ha, Hc. specialize (H2 i a c Ha Hc).
+        replace (h + Z.of_nat (S i)) with (h + 1 + Z.of_nat i) by lia. exact H2.
+    + intros Hc. split.
+      * specialize (Hc 0%nat x y eq_refl eq_refl). replace (h + Z.of_nat 0) with h in Hc by lia. exact Hc.
+      * intros i a c Ha Hcc. specialize (Hc (S i) a c Ha Hcc).
+        replace (h + Z.of_nat (S i)) with (h + 1 + Z.of_nat i) in Hc by lia. exact Hc.
+Qed.
+
+Lemma chain_from_nil P look h : chain_from P look [] h.
+Proof. intros i x y Hx. destruct i; discriminate. Qed.
+
+Lemma valid_chain_iff P L : valid_chain P L <-> chain_from P (nthZ L) L 0.
+Proof.
+  unfold valid_chain, valid_chainb. destruct L as [|x r].
+  - split; [intros _; apply chain_from_nil | reflexivity].
+  - cbn [with_heights]. apply pairs_ok_chain.
+Qed.
+
+Lemma all_pairs_chain P look hdrs st p :
+  all_pairs (pair_ok P look) p (with_heights hdrs st) = true ->
+  chain_from P look hdrs st /\
+  (forall q x, p = Some (q, st - 1) -> nth_error hdrs 0 = Some x ->
+     pair_ok P look (q, st - 1) (x, st) = true).
+Proof.
+  intros Ha. destruct hdrs as [|x r].
+  - split; [apply chain_from_nil|]. intros q y _ Hy. discriminate.
+  - cbn [with_heights] in Ha. destruct p as [[q qh]|]; cbn [all_pairs pairs_ok] in Ha.
+    + apply andb_true_iff in Ha. destruct Ha as [H1 H2]. split; [now apply pairs_ok_chain|].
+      intros q' y Hq Hy. inversion Hq; inversion Hy; subst. exact H1.
+    + split; [now apply pairs_ok_chain|]. intros; discriminate.
+Qed.
+
+(* validate_blocks: all adjacent pairs of the file, and the first header
+   against the target store's header just below it *)
+Lemma validate_blocks_chain P s b B :
+  validate_blocks P s b B = true ->
+  chain_from P (lk s b) (bs_hdrs b) (hz (b_start b)) /\
+  (forall q x, hz (b_start b) > 0 -> b_fetch s (Ht (hz (b_start b) - 1)) = Some q ->
+     nth_error (bs_hdrs b) 0 = Some x ->
+     pair_ok P (lk s b) (q, hz (b_start b) - 1) (x, hz (b_start b)) = true).
+Proof.
+  unfold validate_blocks. intros Hv.
+  apply validate_chunks_pairs in Hv; [|lia|lia].
+  apply all_pairs_chain in Hv. destruct Hv as [H1 H2]. split; [exact H1|].
+  intros q x Hst Hq Hx. apply H2; [|exact Hx].
+  destruct (hz (b_start b) >? 0) eqn:E; [|lia]. now rewrite Hq.
+Qed.
+
+Lemma chain_from_look P look1 look2 L h0 :
+  retarget_ok P -> 0 <= h0 ->
+  (forall k, k < h0 + Z.of_nat (length L) - 1 -> look1 k = look2 k) ->
+  chain_from P look1 L h0 -> chain_from P look2 L h0.
+Proof.
+  intros HR H0 Hk Hc i x y Hx Hy. rewrite <- (Hc i x y Hx Hy). symmetry.
+  apply pair_ok_local; [assumption | lia |].
+  intros k Hle. apply Hk. apply nth_error_Some_lt in Hy. lia.
+Qed.
+
+(* a prefix of a valid chain is a valid chain *)
+Lemma valid_chain_prefix P A R : retarget_ok P -> valid_chain P (A ++ R) -> valid_chain P A.
+Proof.
+  rewrite !valid_chain_iff. intros HR Hc.
+  apply (chain_from_look P (nthZ (A ++ R)) (nthZ A) A 0 HR); [lia | |].
+  - intros k Hk. apply nthZ_app_l. lia.
+  - intros i x y Hx Hy. apply Hc; rewrite nth_error_app1; try assumption.
+    + apply nth_error_Some_lt in Hx. exact Hx.
+    + apply nth_error_Some_lt in Hy. exact Hy.
+Qed.
+
+Lemma nth_error_app_skip {A} (old hdrs : list A) kN i :
+  (length old <= i)%nat ->
+  nth_error (old ++ skipn kN hdrs) i = nth_error hdrs (kN + (i - length old)).
+Proof. intros Hi. rewrite nth_error_app2 by lia. apply nth_error_skipn'. Qed.
+
+Lemma nthZ_nth_error {A} (l : list A) i : nthZ l (Z.of_nat i) = nth_error l i.
+Proof.
+  destruct (nth_error l i) eqn:E.
+  - apply nthZ_some. split; [lia|]. now rewrite Nat2Z.id.
+  - apply nthZ_none. apply nth_error_None in E. lia.
+Qed.
+
+(* old valid chain + validated file = valid extended chain *)
+Lemma stitch P look (old hdrs : list hdr) (kN : nat) (st : Z) :
+  retarget_ok P ->
+  st = Z.of_nat (length old) - Z.of_nat kN -> 0 <= st -> (kN <= length hdrs)%nat ->
+  valid_chain P old ->
+  chain_from P look hdrs st ->
+  (kN = 0%nat -> forall q x, nth_error old (length old - 1) = Some q -> nth_error hdrs 0 = Some x ->
+     pair_ok P look (q, st - 1) (x, st) = true) ->
+  ((0 < kN)%nat -> forall q x, nth_error old (length old - 1) = Some q -> nth_error hdrs (kN - 1) = Some x -> x = q) ->
+  (forall h, h < Z.of_nat (length (old ++ skipn kN hdrs)) -> look h = nthZ (old ++ skipn kN hdrs) h) ->
+  valid_chain P (old ++ skipn kN hdrs).
+Proof.
+  intros HR Est Hst Hk Hold Hfile Hseed Hov Hlook.
+  set (L := old ++ skipn kN hdrs) in *.
+  apply valid_chain_iff. apply valid_chain_iff in Hold.
+  intros i x y Hx Hy. replace (0 + Z.of_nat i) with (Z.of_nat i) by lia.
+  pose proof (nth_error_Some_lt _ _ _ Hy) as HyL.
+  destruct (lt_dec (S i) (length old)) as [Hin|Hout].
+  - (* both in the old part *)
+    unfold L in Hx, Hy. rewrite nth_error_app1 in Hx, Hy by lia.
+    specialize (Hold i x y Hx Hy). replace (0 + Z.of_nat i) with (Z.of_nat i) in Hold by lia.
+    rewrite <- Hold. apply pair_ok_local; [assumption | lia |].
+    intros k Hle. unfold L. apply nthZ_app_l. lia.
+  - assert (Hy' : nth_error hdrs (kN + (S i - length old)) = Some y).
+    { unfold L in Hy. rewrite nth_error_app_skip in Hy by lia. exact Hy. }
+    assert (Htr : forall a c, pair_ok P look a c = true ->
+              snd a = Z.of_nat i -> pair_ok P (nthZ L) (fst a, Z.of_nat i) c = true).
+    { intros [a ah] c Hp Ha. cbn [fst snd] in *. subst ah. rewrite <- Hp. symmetry.
+      apply pair_ok_local; [assumption | lia |]. intros k Hle. apply Hlook. lia. }
+    destruct (le_dec (length old) i) as [Hge|Hlt].
+    + (* both in the new part *)
+      assert (Hx' : nth_error hdrs (kN + (i - length old)) = Some x).
+      { unfold L in Hx. rewrite nth_error_app_skip in Hx by lia. exact Hx. }
+      replace (kN + (S i - length old))%nat with (S (kN + (i - length old))) in Hy' by lia.
+      specialize (Hfile _ x y Hx' Hy').
+      replace (st + Z.of_nat (kN + (i - length old))) with (Z.of_nat i) in Hfile by lia.
+      apply (Htr (x, Z.of_nat i) _ Hfile eq_refl).
+    + (* the junction *)
+      assert (Hi : i = (length old - 1)%nat) by lia.
+      assert (Hx' : nth_error old (length old - 1) = Some x).
+      { unfold L in Hx. rewrite nth_error_app1 in Hx by lia. now rewrite <- Hi. }
+      replace (kN + (S i - length old))%nat with kN in Hy' by lia.
+      destruct kN as [|k'].
+      * specialize (Hseed eq_refl x y Hx' Hy').
+        replace (Z.of_nat i + 1) with st by lia.
+        apply (Htr (x, st - 1) _ Hseed). cbn [snd]. lia.
+      * destruct (nth_error hdrs k') as [x0|] eqn:Ex0.
+        2:{ apply nth_error_None in Ex0. apply nth_error_Some_lt in Hy'. lia. }
+        assert (x0 = x).
+        { apply (Hov ltac:(lia) x x0 Hx'). replace (S k' - 1)%nat with k' by lia. exact Ex0. }
+        subst x0. specialize (Hfile k' x y Ex0 Hy').
+        replace (st + Z.of_nat k') with (Z.of_nat i) in Hfile by lia.
+        apply (Htr (x, Z.of_nat i) _ Hfile eq_refl).
+Qed.
+
+Definition checks (P : params) (s : stores) (b : bsource) (f : fsource) (bs : Z) : bool :=
+  open_ok (bs_meta b) (length (bs_hdrs b)) && open_ok (fs_meta f) (length (fs_hdrs f)) &&
+  compat P b f && continuity s b f && validate_blocks P s b (eff_batch bs) && validate_filters P f.
+
+(* Import writes only after every check has passed *)
+Lemma import_checks P s b f bs fl r s' :
+  import P s b f bs fl = (r, s') -> (r = Failure /\ s' = s) \/ checks P s b f bs = true.
+Proof.
+  unfold import, checks.
+  destruct (open_ok (bs_meta b) (length (bs_hdrs b)) && open_ok (fs_meta f) (length (fs_hdrs f)));
+    cbn [negb andb]; [|intros Hi; inversion Hi; now left].
+  destruct (compat P b f); cbn [negb andb]; [|intros Hi; inversion Hi; now left].
+  destruct (continuity s b f); cbn [negb andb]; [|intros Hi; inversion Hi; now left].
+  destruct (validate_blocks P s b (eff_batch bs)); cbn [negb andb]; [|intros Hi; inversion Hi; now left].
+  destruct (validate_filters P f); cbn [negb andb]; [|intros Hi; inversion Hi; now left].
+  intros _. now right.
+Qed.
+
+Lemma checks_facts P s b f bs : checks P s b f bs = true ->
+  (0 < length (bs_hdrs b))%nat /\ length (fs_hdrs f) = length (bs_hdrs b) /\
+  hz (m_start (fs_meta f)) = hz (b_start b) /\
+  continuity s b f = true /\ validate_blocks P s b (eff_batch bs) = true /\ validate_filters P f = true.
+Proof.
+  unfold checks, open_ok, compat, b_start. intros Hc.
+  repeat (apply andb_true_iff in Hc; destruct Hc as [Hc ?]).
+  repeat split; try assumption.
+  - destruct (length (bs_hdrs b)); cbn in *; lia.
+  - apply Nat.eqb_eq. lia.
+  - lia.
+Qed.
+
+(* once every check passed, the outcome is decided by the regions alone *)
+Lemma import_after_checks P s b f bs fl :
+  checks P s b f bs = true ->
+  import P s b f bs fl =
+  match regions s b with
+  | None => (Failure, s)
+  | Some (dv, nw) =>
+    let c0 := mkC 0 0 in
+    let '(r1, s1, c1) :=
+      if r_exists dv then
+        if verify_at s b f (r_end dv) (r_v dv)
+        then append_region fl c0 s b f (r_start dv) (r_end dv) bs (r_a dv)
+        else (Failure, s, c0)
+      else (Success, s, c0) in
+    match r1 with
+    | Failure => (Failure, s1)
+    | Success =>
+      if r_exists nw then
+        let '(r2, s2, _) := append_region fl c1 s1 b f (r_start nw) (r_end nw) bs (r_a nw) in
+        (r2, s2)
+      else (Success, s1)
+    end
+  end.
+Proof.
+  unfold checks, import. intros Hc.
+  apply andb_true_iff in Hc; destruct Hc as [Hc H5].
+  apply andb_true_iff in Hc; destruct Hc as [Hc H4].
+  apply andb_true_iff in Hc; destruct Hc as [Hc H3].
+  apply andb_true_iff in Hc; destruct Hc as [Hc H2].
+  rewrite Hc, H2, H3, H4, H5. reflexivity.
+Qed.
+
+(* ------------------------------------------------------------------ *)
+(* The validators' lookup *)
+
+Lemma bs_get_fst b j : option_map fst (bs_get b (Ix j)) = nthZ (bs_hdrs b) j.
+Proof. unfold bs_get. cbn [iz]. destruct (nthZ (bs_hdrs b) j); reflexivity. Qed.
+
+Lemma lk_unfold s b h :
+  lk s b h = match nthZ (bfile s) h with
+             | Some x => Some x
+             | None => if h <? hz (b_start b) then None else nthZ (bs_hdrs b) (h - hz (b_start b))
+             end.
+Proof. unfold lk, b_fetch, ix_of_height. cbn [hz]. now rewrite bs_get_fst. Qed.
+
+Lemma lk_self s b h : 0 <= hz (b_start b) -> h < Z.of_nat (length (bfile s)) -> lk s b h = nthZ (bfile s) h.
+Proof.
+  intros Hst Hh. rewrite lk_unfold. destruct (nthZ (bfile s) h) eqn:E; [reflexivity|].
+  destruct (Z_lt_dec h 0) as [Hn|Hn].
+  - destruct (h <? hz (b_start b)) eqn:E2; [reflexivity | lia].
+  - destruct (nthZ_is_some (bfile s) h) as [x Hx]; [lia | congruence].
+Qed.
+
+Lemma lk_extend s sL b kN :
+  bfile sL = bfile s ++ skipn kN (bs_hdrs b) ->
+  hz (b_start b) = Z.of_nat (length (bfile s)) - Z.of_nat kN -> 0 <= hz (b_start b) ->
+  forall h, lk sL b h = lk s b h.
+Proof.
+  intros HL Est Hst h. rewrite !lk_unfold, HL.
+  destruct (nthZ (bfile s) h) as [x|] eqn:E1.
+  - rewrite nthZ_app_l by (apply nthZ_lt in E1; lia). now rewrite E1.
+  - destruct (nthZ (bfile s ++ skipn kN (bs_hdrs b)) h) as [x|] eqn:E2; [|reflexivity].
+    destruct (Z_lt_dec h (Z.of_nat (length (bfile s)))) as [Hlt|Hge].
+    + rewrite nthZ_app_l in E2 by lia. congruence.
+    + rewrite nthZ_app_r in E2 by lia.
+      replace kN with (Z.to_nat (Z.of_nat kN)) in E2 by lia.
+      rewrite nthZ_skipn in E2 by lia.
+      destruct (h <? hz (b_start b)) eqn:E3; [lia|].
+      rewrite <- E2. f_equal. lia.
+Qed.
+
+(* ------------------------------------------------------------------ *)
+(* Continuity check, spelled out for readable tips *)
+
+Definition cont_expr (s : stores) (b : bsource) (f : fsource) (bt ft : Z) : bool :=
+  let eff := Z.min bt ft in
+  let st := hz (b_start b) in let en := hz (b_end b) in
+  if st >? eff + 1 then false
+  else if st >? eff then connection s b (Ht st) (Ht eff)
+  else
+    let oe := Z.min eff en in
+    verify_at s b f (Ht st) VBoth &&
+    (if oe >? st then verify_at s b f (Ht oe) VBoth else true) &&
+    (if oe <? en then connection s b (Ht (oe + 1)) (Ht eff) else true).
+
+Lemma continuity_tips s b f x bt y ft :
+  b_chaintip s = Some (x, Ht bt) -> f_chaintip s = Some (y, Ht ft) ->
+  continuity s b f = cont_expr s b f bt ft.
+Proof. intros Hb Hf. unfold continuity. now rewrite Hb, Hf. Qed.
+
+Lemma verify_block_at_iff s b h :
+  verify_block_at s b (Ht h) = true <->
+  exists x y, nthZ (bs_hdrs b) (h - hz (b_start b)) = Some x /\ nthZ (bfile s) h = Some y /\ hid x = hid y.
+Proof.
+  unfold verify_block_at, bs_get, b_fetch, ix_of_height. cbn [hz iz].
+  destruct (nthZ (bs_hdrs b) (h - hz (b_start b))) as [x|]; [|split; [discriminate | intros (x & y & Hx & _); discriminate]].
+  destruct (nthZ (bfile s) h) as [y|]; [|split; [discriminate | intros (x' & y & _ & Hy & _); discriminate]].
+  split.
+  - intros He. exists x, y. repeat split. lia.
+  - intros (x' & y' & Hx & Hy & He). inversion Hx; inversion Hy; subst. lia.
+Qed.
+
+Lemma verify_filter_at_iff s b f h :
+  verify_filter_at s b f (Ht h) = true <->
+  exists x, nthZ (fs_hdrs f) (h - hz (b_start b)) = Some x /\ nthZ (ffile s) h = Some x.
+Proof.
+  unfold verify_filter_at, fs_get, f_fetch, ix_of_height. cbn [hz iz].
+  destruct (nthZ (fs_hdrs f) (h - hz (b_start b))) as [x|]; [|split; [discriminate | intros (x & Hx & _); discriminate]].
+  destruct (nthZ (ffile s) h) as [y|]; [|split; [discriminate | intros (x' & _ & Hy); discriminate]].
+  cbn [fe_hash]. split.
+  - intros He. exists x. split; [reflexivity|]. f_equal. lia.
+  - intros (x' & Hx & Hy). inversion Hx; inversion Hy; subst. lia.
+Qed.
+
+Lemma connection_iff s b th ph :
+  connection s b (Ht th) (Ht ph) = true <->
+  exists p c, nthZ (bfile s) ph = Some p /\ nthZ (bs_hdrs b) (th - hz (b_start b)) = Some c /\ hprev c = hid p.
+Proof.
+  unfold connection, bs_get, b_fetch, ix_of_height. cbn [hz iz].
+  destruct (nthZ (bfile s) ph) as [p|]; [|split; [discriminate | intros (p & c & Hp & _); discriminate]].
+  destruct (nthZ (bs_hdrs b) (th - hz (b_start b))) as [c|]; [|split; [discriminate | intros (p' & c & _ & Hc & _); discriminate]].
+  split.
+  - intros He. exists p, c. repeat split. lia.
+  - intros (p' & c' & Hp & Hc & He). inversion Hp; inversion Hc; subst. lia.
+Qed.
+
+(* stores at equal heights n: what a passed continuity check says *)
+Lemma continuity_equal_facts s b f :
+  stores_wf s -> length (bfile s) = length (ffile s) -> continuity s b f = true ->
+  let n := Z.of_nat (length (bfile s)) in
+  let st := hz (b_start b) in let en := hz (b_end b) in
+  st <= n /\
+  (st < n -> verify_at s b f (Ht st) VBoth = true) /\
+  (st < n -> st < Z.min (n - 1) en -> verify_at s b f (Ht (Z.min (n - 1) en)) VBoth = true).
+Proof.
+  intros Hwf Heq Hc. pose proof (wf_tips s Hwf) as [Hbt [y Hft]].
+  rewrite (continuity_tips _ _ _ _ _ _ _ Hbt Hft) in Hc. unfold cont_expr in Hc.
+  rewrite <- Heq in Hc. cbn zeta.
+  set (n := Z.of_nat (length (bfile s))) in *.
+  replace (Z.min (n - 1) (n - 1)) with (n - 1) in Hc by lia.
+  destruct (hz (b_start b) >? n - 1 + 1) eqn:E1; [discriminate|].
+  split; [lia|].
+  destruct (hz (b_start b) >? n - 1) eqn:E2.
+  { split; intros; lia. }
+  apply andb_true_iff in Hc. destruct Hc as [Hc _].
+  apply andb_true_iff in Hc. destruct Hc as [H1 H2].
+  split; [intros _; exact H1|].
+  intros _ Hlt. destruct (Z.min (n - 1) (hz (b_end b)) >? hz (b_start b)) eqn:E3; [exact H2 | lia].
+Qed.
+
+(* the validated file on top of a valid stored chain: valid, provided the
+   file's header at the store's tip height is the store's tip (checked by the
+   overlap / divergence verification) *)
+Lemma extend_valid_gen P s b B :
+  stores_wf s -> 0 <= hz (b_start b) ->
+  hash_inj (bfile s ++ bs_hdrs b) -> retarget_ok P ->
+  validate_blocks P s b B = true ->
+  (hz (b_start b) < Z.of_nat (length (bfile s)) -> Z.of_nat (length (bfile s)) <= hz (b_end b) ->
+     verify_block_at s b (Ht (Z.of_nat (length (bfile s)) - 1)) = true) ->
+  valid_chain P (bfile s) ->
+  valid_chain P (extend (bfile s) (hz (b_start b)) (bs_hdrs b)).
+Proof.
+  intros Hwf Hst Hinj HR Hvb Hvat Hold.
+  unfold extend.
+  destruct ((Z.of_nat (length (bfile s)) - hz (b_start b) <? 0) ||
+            (Z.of_nat (length (bfile s)) - hz (b_start b) >? Z.of_nat (length (bs_hdrs b)))) eqn:Erange;
+    [exact Hold|].
+  set (n := Z.of_nat (length (bfile s))) in *. set (st := hz (b_start b)) in *.
+  set (kN := Z.to_nat (n - st)).
+  destruct (Z.eq_dec (n - st) (Z.of_nat (length (bs_hdrs b)))) as [Hall|Hnall].
+  { rewrite skipn_all2 by lia. now rewrite app_nil_r. }
+  assert (Hend : hz (b_end b) = st + Z.of_nat (length (bs_hdrs b)) - 1) by reflexivity.
+  assert (Hn1 : 1 <= n).
+  { destruct Hwf as [W1 _ _ _ _ _ _]. unfold n. destruct (bfile s); [congruence | cbn [length]; lia]. }
+  destruct (validate_blocks_chain _ _ _ _ Hvb) as [Hchain Hseed]. fold st in Hchain, Hseed.
+  pose (sL := mkS (bfile s ++ skipn kN (bs_hdrs b)) (ffile s) (sidx s) (btip s) (ftip s)).
+  apply (stitch P (lk s b) (bfile s) (bs_hdrs b) kN st); try assumption.
+  - unfold kN. fold n. lia.
+  - unfold kN. lia.
+  - (* file starts right above the store: the seed pair *)
+    intros Hk0 q x Hq Hx. apply Hseed; [unfold kN in Hk0; lia | | exact Hx].
+    unfold b_fetch. cbn [hz].
+    replace (st - 1) with (Z.of_nat (length (bfile s) - 1)) by (unfold kN in Hk0; lia).
+    now rewrite nthZ_nth_error.
+  - (* overlap: the file's header at the store's tip height is the store's tip *)
+    intros Hk q x Hq Hx.
+    specialize (Hvat ltac:(unfold kN in Hk; lia) ltac:(lia)).
+    apply verify_block_at_iff in Hvat. destruct Hvat as (x' & y' & Hx' & Hy' & He). fold st in Hx'.
+    replace (n - 1 - st) with (Z.of_nat (kN - 1)) in Hx' by (unfold kN in *; lia).
+    replace (n - 1) with (Z.of_nat (length (bfile s) - 1)) in Hy' by (unfold n; lia).
+    rewrite nthZ_nth_error in Hx', Hy'.
+    assert (x' = x) by congruence. assert (y' = q) by congruence. subst x' y'.
+    apply Hinj; [| | exact He].
+    + apply in_or_app. right. now apply nth_error_In in Hx.
+    + apply in_or_app. left. now apply nth_error_In in Hq.
+  - (* the validators' lookup reads the extended chain *)
+    intros h Hh. rewrite <- (lk_extend s sL b kN); [| reflexivity | fold st n; unfold kN; lia | assumption].
+    change (bfile s ++ skipn kN (bs_hdrs b)) with (bfile sL). apply lk_self; assumption.
+Qed.
+
+Lemma extend_valid P s b f bs :
+  stores_wf s -> length (bfile s) = length (ffile s) -> 0 <= hz (b_start b) ->
+  hash_inj (bfile s ++ bs_hdrs b) -> retarget_ok P ->
+  checks P s b f bs = true -> valid_chain P (bfile s) ->
+  valid_chain P (extend (bfile s) (hz (b_start b)) (bs_hdrs b)).
+Proof.
+  intros Hwf Heq Hst Hinj HR Hck Hold.
+  destruct (checks_facts _ _ _ _ _ Hck) as (Hne & Hlen & Hfst & Hcont & Hvb & _).
+  apply (extend_valid_gen P s b (eff_batch bs)); try assumption.
+  intros Hlt Hen.
+  destruct (continuity_equal_facts s b f Hwf Heq Hcont) as (_ & Hv0 & Hov). cbn zeta in Hv0, Hov.
+  set (n := Z.of_nat (length (bfile s))) in *. set (st := hz (b_start b)) in *.
+  destruct (Z_lt_dec st (n - 1)) as [Hlt1|Hnlt].
+  - specialize (Hov Hlt ltac:(lia)). replace (Z.min (n - 1) (hz (b_end b))) with (n - 1) in Hov by lia.
+    cbn [verify_at] in Hov. apply andb_true_iff in Hov. tauto.
+  - specialize (Hv0 Hlt). replace (n - 1) with st by lia.
+    cbn [verify_at] in Hv0. apply andb_true_iff in Hv0. tauto.
+Qed.
+
+(* ------------------------------------------------------------------ *)
+(* Equal heights: the resulting block chain is valid, nothing unvalidated *)
+
+Lemma import_chain_valid_equal P s b f bs fl r s' :
+  stores_wf s -> length (bfile s) = length (ffile s) -> 0 <= hz (b_start b) ->
+  NoDup (map hid (extend (bfile s) (hz (b_start b)) (bs_hdrs b))) ->
+  hash_inj (bfile s ++ bs_hdrs b) -> retarget_ok P ->
+  import P s b f bs fl = (r, s') ->
+  valid_chain P (bfile s) -> valid_chain P (bfile s').
+Proof.
+  intros Hwf Heq Hst Hnd Hinj HR Him Hold.
+  destruct (import_checks _ _ _ _ _ _ _ _ Him) as [[_ ->]|Hck]; [exact Hold|].
+  pose proof (extend_valid P s b f bs Hwf Heq Hst Hinj HR Hck Hold) as HL.
+  destruct (import_equal_heights _ _ _ _ _ _ _ _ Hwf Heq Hst Hnd Him) as (_ & _ & Hcp & _).
+  destruct Hcp as ([rest Hrest] & _). rewrite <- Hrest in HL.
+  now apply valid_chain_prefix in HL.
+Qed.
+
+Lemma vff_skipn P : forall l j h, validate_filters_from P l h = true ->
+  validate_filters_from P (skipn j l) (h + Z.of_nat j) = true.
+Proof.
+  induction l as [|x r IH]; intros j h Hv.
+  - now rewrite skipn_nil.
+  - destruct j as [|j]; [cbn [skipn]; now replace (h + Z.of_nat 0) with h by lia|].
+    cbn [skipn]. cbn [validate_filters_from] in Hv. apply andb_true_iff in Hv. destruct Hv as [_ Hv].
+    replace (h + Z.of_nat (S j)) with (h + 1 + Z.of_nat j) by lia. now apply IH.
+Qed.
+
+Lemma vff_firstn P : forall l j h, validate_filters_from P l h = true ->
+  validate_filters_from P (firstn j l) h = true.
+Proof.
+  induction l as [|x r IH]; intros j h Hv.
+  - now rewrite firstn_nil.
+  - destruct j as [|j]; [reflexivity|].
+    cbn [firstn validate_filters_from] in *. apply andb_true_iff in Hv. destruct Hv as [H1 H2].
+    now rewrite H1, IH.
+Qed.
+
+Lemma extend_alt {A} (old : list A) st file : st <= Z.of_nat (length old) ->
+  extend old st file = old ++ skipn (Z.to_nat (Z.of_nat (length old) - st)) file.
+Proof.
+  intros Hst. unfold extend.
+  destruct ((Z.of_nat (length old) - st <? 0) || (Z.of_nat (length old) - st >? Z.of_nat (length file))) eqn:E;
+    [|reflexivity].
+  rewrite skipn_all2 by lia. now rewrite app_nil_r.
+Qed.
+
+(* every filter header the import added respects the checkpoints *)
+Lemma filters_validated P (oldF newF fh : list Z) st rest :
+  validate_filters_from P fh st = true -> 0 <= st ->
+  newF ++ rest = extend oldF st fh -> (length oldF <= length newF)%nat ->
+  validate_filters_from P (skipn (length oldF) newF) (Z.of_nat (length oldF)) = true.
+Proof.
+  intros Hv Hst Hrest Hlen.
+  destruct (Z_le_dec st (Z.of_nat (length oldF))) as [Hle|Hgt].
+  - rewrite extend_alt in Hrest by assumption.
+    set (kF := Z.to_nat (Z.of_nat (length oldF) - st)) in *.
+    assert (Hn : newF = oldF ++ firstn (length newF - length oldF) (skipn kF fh)).
+    { pose proof (firstn_app_exact newF rest) as Hfx. rewrite Hrest, firstn_app in Hfx.
+      rewrite (firstn_all2 oldF) in Hfx by lia. now symmetry. }
+    rewrite Hn at 1. rewrite skipn_app_exact.
+    apply vff_firstn. replace (Z.of_nat (length oldF)) with (st + Z.of_nat kF) by (unfold kF; lia).
+    now apply vff_skipn.
+  - unfold extend in Hrest.
+    destruct ((Z.of_nat (length oldF) - st <? 0) || (Z.of_nat (length oldF) - st >? Z.of_nat (length fh))) eqn:E; [|lia].
+    apply (f_equal (@length _)) in Hrest. rewrite app_length in Hrest.
+    rewrite skipn_all2 by lia. reflexivity.
+Qed.
+
+Lemma pair_ok_ext P look1 look2 pe ce :
+  (forall k, look1 k = look2 k) -> pair_ok P look1 pe ce = pair_ok P look2 pe ce.
+Proof.
+  intros Hk. destruct pe as [p ph], ce as [c ch]. unfold pair_ok, ctx_ok.
+  assert (He : expected_bits P look1 ph p = expected_bits P look2 ph p).
+  { unfold expected_bits. now rewrite Hk. }
+  assert (Hm : mtp look1 ph p = mtp look2 ph p).
+  { unfold mtp. rewrite (collect_times_local 11 look1 look2 ph (htime p)); [reflexivity|].
+    intros k _. apply Hk. }
+  rewrite He, Hm. reflexivity.
+Qed.
+
+(* ------------------------------------------------------------------ *)
+(* Block store ahead of the filter store: the filter-only batch loop *)
+
+Lemma wf_hid_height s i j x y : stores_wf s ->
+  nthZ (bfile s) i = Some x -> nthZ (bfile s) j = Some y -> hid x = hid y -> i = j.
+Proof.
+  intros Hwf Hx Hy He. destruct Hwf as [_ _ _ _ W5 _ _].
+  apply W5 in Hx. apply W5 in Hy. rewrite He in Hx. congruence.
+Qed.
+
+Definition cntE (e i B : Z) : Z := Z.min e (i + B - 1) - i + 1.
+
+Lemma read_batch_ok_gen {A} (get : index -> option A) avail i e B (l : list A) :
+  1 <= B -> 0 <= i <= e -> e <= avail - 1 ->
+  read_range get (Z.to_nat (cntE e i B)) i = Some l -> length l = Z.to_nat (cntE e i B) ->
+  read_batch get avail (Ix i) (Ix e) B = RB_ok l.
+Proof.
+  intros HB Hi He Hr Hl. unfold read_batch. cbn [iz].
+  destruct (i >? Z.min e (i + B - 1)) eqn:E; [lia|].
+  replace (Z.min (Z.min e (i + B - 1) - i + 1) (avail + 1)) with (cntE e i B) by (unfold cntE; lia).
+  rewrite Hr. destruct l; [|reflexivity]. unfold cntE in Hl. cbn in Hl. lia.
+Qed.
+
+(* filterHeaderStore.WriteHeaders below the block tip *)
+Lemma wf_fwrite_lag s fes x :
+  stores_wf s -> fes <> [] ->
+  nthZ (bfile s) (Z.of_nat (length (ffile s) + length fes) - 1) = Some x ->
+  fe_blk (lastd fes (FE 0 0 0)) = hid x ->
+  stores_wf (f_write s fes).
+Proof.
+  intros Hwf Hne Hx Hblk. pose proof (nthZ_lt _ _ _ Hx) as Hlt.
+  destruct Hwf as [W1 W2 W3 W4 W5 [W6a W6b] [xf [W7a W7b]]].
+  rewrite f_write_ne by assumption.
+  constructor; cbn [bfile ffile sidx btip ftip]; try assumption.
+  - destruct (ffile s); [congruence | discriminate].
+  - rewrite app_length, map_length. lia.
+  - now split.
+  - exists x. split; [|assumption]. now rewrite app_length, map_length.
+Qed.
+
+Lemma write_both_nil fl c s fb r s' c' :
+  write_both fl c s [] fb = (r, s', c') ->
+  (r = Failure /\ s' = s) \/ (r = Success /\ s' = f_write s fb).
+Proof.
+  unfold write_both. cbn [length Nat.eqb negb andb b_write].
+  destruct (negb (Nat.eqb (length fb) 0) && ((if Nat.eqb (length fb) 0 then c_fw c else c_fw c + 1) =? fl_fw fl));
+    intros Hw; inversion Hw; auto.
+Qed.
+
+Section LoopF.
+  Variables (b : bsource) (f : fsource) (fl : faults) (B : Z).
+  Variables (ob : list hdr) (ofl : list Z).
+  Variables (st len m0 de : Z).
+  Hypothesis Est : st = hz (b_start b).
+  Hypothesis Elen : len = Z.of_nat (length (bs_hdrs b)).
+  Hypothesis Em0 : m0 = Z.of_nat (length ofl).
+  Hypothesis HB : 1 <= B.
+  Hypothesis Hst : 0 <= st.
+  Hypothesis Hlen : length (fs_hdrs f) = length (bs_hdrs b).
+  Hypothesis Hfst : hz (m_start (fs_meta f)) = st.
+  Hypothesis Hm0 : st <= m0.
+  Hypothesis Hde1 : de <= st + len - 1.
+  Hypothesis Hde2 : de < Z.of_nat (length ob).
+
+  Definition InvF (s : stores) (h : Z) : Prop :=
+    stores_wf s /\ bfile s = ob /\ Z.of_nat (length (ffile s)) = h /\ m0 <= h <= de + 1 /\
+    ffile s ++ skipn (Z.to_nat (h - st)) (fs_hdrs f) = ofl ++ skipn (Z.to_nat (m0 - st)) (fs_hdrs f).
+
+  Definition PostF (s : stores) : Prop :=
+    stores_wf s /\ bfile s = ob /\
+    (exists r, ffile s ++ r = ofl ++ skipn (Z.to_nat (m0 - st)) (fs_hdrs f)) /\
+    (length ofl <= length (ffile s))%nat /\ Z.of_nat (length (ffile s)) <= de + 1.
+
+  Lemma InvF_PostF s h : InvF s h -> PostF s.
+  Proof.
+    intros (Hwf & Hb & Hf & Hh & Ef). unfold PostF.
+    split; [assumption|]. split; [assumption|]. split; [eexists; exact Ef|]. split; lia.
+  Qed.
+
+  Lemma stepF_ok c s h res s' c' :
+    InvF s h ->
+    process_batch fl c s b f (Ht h) (ix_of_height (Ht h) (b_start b)) (Ix (de - st)) B AFilter = (res, s', c') ->
+    (h > de /\ res = B_eof /\ s' = s) \/
+    (h <= de /\ res = B_fail /\ s' = s) \/
+    (h <= de /\ exists h', res = B_done (Ht (h' - 1)) /\ h < h' /\ InvF s' h').
+  Proof.
+    intros HI Hp. destruct HI as (Hwf & Hb & Hf & Hh & Ef).
+    unfold process_batch, ix_of_height in Hp. cbn [hz] in Hp. rewrite <- Est in Hp.
+    unfold b_count in Hp. rewrite <- Elen in Hp.
+    destruct (Z_gt_dec h de) as [Hgt|Hle].
+    { rewrite read_batch_eof in Hp by lia. inversion Hp. left. auto. }
+    right.
+    set (k := Z.to_nat (cntE (de - st) (h - st) B)) in *.
+    assert (Hk : (1 <= k)%nat /\ h + Z.of_nat k - 1 <= de) by (unfold k, cntE; lia).
+    set (cf := firstn k (skipn (Z.to_nat (h - st)) (fs_hdrs f))) in *.
+    assert (Lcf : length cf = k) by (unfold cf; rewrite firstn_length, skipn_length; lia).
+    assert (Ncf : cf <> []) by (destruct cf; [cbn in Lcf; lia | discriminate]).
+    rewrite (read_batch_ok_gen (fs_get f) len (h - st) (de - st) B (fents cf h)) in Hp;
+      [| lia | lia | lia | | now rewrite fents_length].
+    2:{ fold k. rewrite read_range_f by lia. fold cf. rewrite Hfst. f_equal. f_equal. lia. }
+    rewrite fents_length, Lcf in Hp.
+    unfold b_fetch in Hp. cbn [hz] in Hp. rewrite Hb in Hp.
+    destruct (nthZ_is_some ob (h + Z.of_nat k - 1)) as [x Hx]; [lia|]. rewrite Hx in Hp.
+    set (fb := set_last_blk (fents cf h) (hid x)) in *.
+    assert (Nfb : fb <> []).
+    { intro E. apply (f_equal (@length _)) in E. unfold fb in E.
+      rewrite set_last_blk_length, fents_length in E. cbn in E. lia. }
+    assert (Hsplit_f : skipn (Z.to_nat (h - st)) (fs_hdrs f) = cf ++ skipn (Z.to_nat (h + Z.of_nat k - st)) (fs_hdrs f)).
+    { rewrite (skipn_split _ _ k). fold cf. f_equal. f_equal. lia. }
+    destruct (write_both fl c s [] fb) as [[r s1] c1] eqn:Ew.
+    apply write_both_nil in Ew. destruct Ew as [[-> ->]|[-> ->]].
+    - inversion Hp; subst res s' c'. left. auto.
+    - inversion Hp; subst res s' c'. right. split; [lia|].
+      exists (h + Z.of_nat k). split; [reflexivity|]. split; [lia|].
+      assert (Hf2 : ffile (f_write s fb) = ffile s ++ cf).
+      { rewrite f_write_ne by assumption. cbn [ffile]. unfold fb.
+        now rewrite set_last_blk_hash, fents_hash. }
+      assert (Hb2 : bfile (f_write s fb) = ob).
+      { rewrite f_write_ne by assumption. exact Hb. }
+      unfold InvF. split.
+      { apply (wf_fwrite_lag s fb x); [assumption | assumption | |].
+        * rewrite Hb. unfold fb. rewrite set_last_blk_length, fents_length, Lcf.
+          rewrite <- Hx. f_equal. lia.
+        * unfold fb. apply set_last_blk_last.
+          intro E. apply (f_equal (@length _)) in E. rewrite fents_length in E. cbn in E. lia. }
+      split; [assumption|].
+      split. { rewrite Hf2, app_length. lia. }
+      split. { lia. }
+      rewrite Hf2, <- app_assoc, <- Hsplit_f. exact Ef.
+  Qed.
+
+  Lemma loopF_ok : forall fuel c s h r s' c',
+    InvF s h -> Z.of_nat fuel > de + 1 - h ->
+    append_loop fuel fl c s b f (Ht h) (Ix (de - st)) B AFilter = (r, s', c') ->
+    PostF s' /\ (r = Success -> InvF s' (de + 1)).
+  Proof.
+    induction fuel as [|k IH]; intros c s h r s' c' HI Hfuel Hl.
+    { destruct HI as (_ & _ & _ & Hh & _). lia. }
+    cbn [append_loop] in Hl.
+    destruct (process_batch fl c s b f (Ht h) (ix_of_height (Ht h) (b_start b)) (Ix (de - st)) B AFilter)
+      as [[res s1] c1] eqn:Ep.
+    apply (stepF_ok c s h res s1 c1 HI) in Ep.
+    destruct Ep as [(Hgt & -> & ->)|[(Hle & -> & ->)|(Hle & h' & -> & Hlt & HI')]].
+    - inversion Hl; subst r s' c'. split; [now apply (InvF_PostF s h)|]. intros _.
+      assert (h = de + 1) by (destruct HI as (_ & _ & _ & Hh & _); lia). now subst h.
+    - inversion Hl; subst r s' c'. split; [now apply (InvF_PostF s h) | discriminate].
+    - replace (h' - 1 + 1) with h' in Hl by lia.
+      apply (IH c1 s1 h' r s' c' HI'); [lia | assumption].
+  Qed.
+End LoopF.
+
+(* ------------------------------------------------------------------ *)
+(* Idempotence *)
+
+Lemma nthZ_app_skip {A} (old l : list A) kN h :
+  Z.of_nat (length old) <= h ->
+  nthZ (old ++ skipn kN l) h = nthZ l (Z.of_nat kN + (h - Z.of_nat (length old))).
+Proof.
+  intros Hh. rewrite nthZ_app_r by lia.
+  replace kN with (Z.to_nat (Z.of_nat kN)) at 1 by lia. apply nthZ_skipn; lia.
+Qed.
+
+(* a file lying entirely within both stores and agreeing with them at its
+   first and last height: Import succeeds and writes nothing *)
+Lemma import_within P s s' b f bs fl' :
+  stores_wf s' -> checks P s b f bs = true ->
+  validate_blocks P s' b (eff_batch bs) = validate_blocks P s b (eff_batch bs) ->
+  hz (b_end b) < Z.of_nat (length (ffile s')) ->
+  verify_at s' b f (Ht (hz (b_start b))) VBoth = true ->
+  (hz (b_end b) > hz (b_start b) -> verify_at s' b f (Ht (hz (b_end b))) VBoth = true) ->
+  import P s' b f bs fl' = (Success, s').
+Proof.
+  intros Hwf' Hck Hvb' Hen Hv0 Hv1.
+  destruct (checks_facts _ _ _ _ _ Hck) as (Hne & Hlen & Hfst & Hcont & Hvb & Hvf).
+  pose proof (wf_tips s' Hwf') as [Hbt' [y' Hft']].
+  pose proof (wf_f_le_b s' Hwf') as Hle'.
+  set (n' := Z.of_nat (length (bfile s'))) in *. set (m' := Z.of_nat (length (ffile s'))) in *.
+  set (st := hz (b_start b)) in *.
+  assert (Hend : hz (b_end b) = st + Z.of_nat (length (bs_hdrs b)) - 1) by reflexivity.
+  assert (Hcont' : continuity s' b f = true).
+  { rewrite (continuity_tips _ _ _ _ _ _ _ Hbt' Hft'). unfold cont_expr. fold st.
+    replace (Z.min (n' - 1) (m' - 1)) with (m' - 1) by lia.
+    replace (st >? m' - 1 + 1) with false by lia.
+    replace (st >? m' - 1) with false by lia.
+    replace (Z.min (m' - 1) (hz (b_end b))) with (hz (b_end b)) by lia.
+    replace (hz (b_end b) <? hz (b_end b)) with false by lia.
+    rewrite andb_true_r, Hv0. cbn [andb].
+    destruct (hz (b_end b) >? st) eqn:E; [apply Hv1; lia | reflexivity]. }
+  assert (Hck' : checks P s' b f bs = true).
+  { unfold checks in *.
+    apply andb_true_iff in Hck; destruct Hck as [Hck H5].
+    apply andb_true_iff in Hck; destruct Hck as [Hck H4].
+    apply andb_true_iff in Hck; destruct Hck as [Hck H3].
+    apply andb_true_iff in Hck; destruct Hck as [Hck H2].
+    rewrite Hck, H2, Hcont', H5, Hvb', H4. reflexivity. }
+  rewrite (import_after_checks _ _ _ _ _ _ Hck').
+  unfold regions. rewrite Hbt', Hft'.
+  clear Hv0 Hv1 Hcont' Hck' Hck Hcont Hvb Hvb' Hvf Hbt' Hft'.
+  destruct (n' - 1 >? m' - 1); [|destruct (n' - 1 <? m' - 1)];
+    cbn [r_exists r_start r_end r_v r_a];
+    replace (Z.min (n' - 1) (m' - 1) + 1 <=? Z.min (Z.max (n' - 1) (m' - 1)) (hz (b_end b))) with false by lia;
+    rewrite andb_false_r;
+    replace (Z.max (n' - 1) (m' - 1) + 1 <=? hz (b_end b)) with false by lia;
+    reflexivity.
+Qed.
+
+Lemma validate_blocks_after P s s' b kN B :
+  bfile s' = bfile s ++ skipn kN (bs_hdrs b) ->
+  hz (b_start b) = Z.of_nat (length (bfile s)) - Z.of_nat kN -> 0 <= hz (b_start b) ->
+  validate_blocks P s' b B = validate_blocks P s b B.
+Proof.
+  intros Hb Est Hst. unfold validate_blocks.
+  assert (Hseed : b_fetch s' (Ht (hz (b_start b) - 1)) = b_fetch s (Ht (hz (b_start b) - 1))).
+  { unfold b_fetch. cbn [hz]. rewrite Hb. apply nthZ_app_l. lia. }
+  rewrite Hseed. apply validate_chunks_ext.
+  intros pe ce. apply pair_ok_ext. intros k. now apply (lk_extend s s' b kN).
+Qed.
+
+(* the stores after the import agree with the file at height h *)
+Lemma verify_at_after s s' b f kN kF h :
+  bfile s' = bfile s ++ skipn kN (bs_hdrs b) -> ffile s' = ffile s ++ skipn kF (fs_hdrs f) ->
+  hz (b_start b) = Z.of_nat (length (bfile s)) - Z.of_nat kN ->
+  hz (b_start b) = Z.of_nat (length (ffile s)) - Z.of_nat kF ->
+  length (fs_hdrs f) = length (bs_hdrs b) ->
+  hz (b_start b) <= h <= hz (b_end b) ->
+  (h < Z.of_nat (length (bfile s)) -> verify_block_at s b (Ht h) = true) ->
+  (h < Z.of_nat (length (ffile s)) -> verify_filter_at s b f (Ht h) = true) ->
+  verify_at s' b f (Ht h) VBoth = true.
+Proof.
+  intros Hb Hf Est EstF Hlen Hh HoldB HoldF.
+  unfold b_end, b_count in Hh. cbn [hz] in Hh.
+  cbn [verify_at]. apply andb_true_iff. split.
+  - destruct (Z_lt_dec h (Z.of_nat (length (bfile s)))) as [Hlt|Hge].
+    + specialize (HoldB Hlt). apply verify_block_at_iff in HoldB. destruct HoldB as (x & y & Hx & Hy & He).
+      apply verify_block_at_iff. exists x, y. split; [exact Hx|]. split; [|exact He].
+      rewrite Hb, nthZ_app_l by lia. exact Hy.
+    + destruct (nthZ_is_some (bs_hdrs b) (h - hz (b_start b))) as [x Hx]; [lia|].
+      apply verify_block_at_iff. exists x, x. split; [exact Hx|]. split; [|reflexivity].
+      rewrite Hb, nthZ_app_skip by lia. rewrite <- Hx. f_equal. lia.
+  - destruct (Z_lt_dec h (Z.of_nat (length (ffile s)))) as [Hlt|Hge].
+    + specialize (HoldF Hlt). apply verify_filter_at_iff in HoldF. destruct HoldF as (x & Hx & Hy).
+      apply verify_filter_at_iff. exists x. split; [exact Hx|].
+      rewrite Hf, nthZ_app_l by lia. exact Hy.
+    + destruct (nthZ_is_some (fs_hdrs f) (h - hz (b_start b))) as [x Hx]; [lia|].
+      apply verify_filter_at_iff. exists x. split; [exact Hx|].
+      rewrite Hf, nthZ_app_skip by lia. rewrite <- Hx. f_equal. lia.
+Qed.
+
+Lemma import_idem_equal P s b f bs fl s' :
+  stores_wf s -> length (bfile s) = length (ffile s) -> 0 <= hz (b_start b) ->
+  NoDup (map hid (extend (bfile s) (hz (b_start b)) (bs_hdrs b))) ->
+  import P s b f bs fl = (Success, s') ->
+  forall fl', import P s' b f bs fl' = (Success, s').
+Proof.
+  intros Hwf Heq Hst Hnd Him fl'.
+  destruct (import_equal_heights _ _ _ _ _ _ _ _ Hwf Heq Hst Hnd Him) as (Hwf' & _ & _ & HS).
+  destruct (HS eq_refl) as (HbL & HfL & Hen & Heq'). clear HS.
+  destruct (import_checks _ _ _ _ _ _ _ _ Him) as [[Hr _]|Hck]; [discriminate|].
+  destruct (checks_facts _ _ _ _ _ Hck) as (Hne & Hlen & Hfst & Hcont & Hvb & Hvf).
+  destruct (continuity_equal_facts s b f Hwf Heq Hcont) as (Hstn & Hv0 & Hv1). cbn zeta in Hstn, Hv0, Hv1.
+  set (n := Z.of_nat (length (bfile s))) in *. set (st := hz (b_start b)) in *.
+  set (kN := Z.to_nat (n - st)).
+  rewrite extend_alt in HbL by assumption. fold n kN in HbL.
+  rewrite extend_alt in HfL by (rewrite <- Heq; assumption). rewrite <- Heq in HfL. fold n kN in HfL.
+  assert (Est : st = n - Z.of_nat kN) by (unfold kN; lia).
+  assert (Hend : hz (b_end b) = st + Z.of_nat (length (bs_hdrs b)) - 1) by reflexivity.
+  apply (import_within P s s' b f bs fl' Hwf' Hck).
+  - apply (validate_blocks_after P s s' b kN _ HbL Est Hst).
+  - lia.
+  - apply (verify_at_after s s' b f kN kN st HbL HfL Est); [rewrite <- Heq; exact Est | exact Hlen | fold st; lia | |].
+    + intros Hlt. specialize (Hv0 Hlt). cbn [verify_at] in Hv0. apply andb_true_iff in Hv0. tauto.
+    + intros Hlt. rewrite <- Heq in Hlt. specialize (Hv0 Hlt). cbn [verify_at] in Hv0. apply andb_true_iff in Hv0. tauto.
+  - intros Hgt.
+    assert (Hv : hz (b_end b) < n -> verify_at s b f (Ht (hz (b_end b))) VBoth = true).
+    { intros Hlt. replace (hz (b_end b)) with (Z.min (n - 1) (hz (b_end b))) by lia. apply Hv1; lia. }
+    apply (verify_at_after s s' b f kN kN (hz (b_end b)) HbL HfL Est); [rewrite <- Heq; exact Est | exact Hlen | fold st; lia | |].
+    + intros Hlt. specialize (Hv Hlt). cbn [verify_at] in Hv. apply andb_true_iff in Hv. tauto.
+    + intros Hlt. rewrite <- Heq in Hlt. specialize (Hv Hlt). cbn [verify_at] in Hv. apply andb_true_iff in Hv. tauto.
+Qed.
+
+(* ------------------------------------------------------------------ *)
+(* What Import guarantees, for any outcome *)
+
+Definition import_post (P : params) (b : bsource) (f : fsource) (bs : Z) (fl : faults)
+           (s : stores) (r : result) (s' : stores) : Prop :=
+  stores_wf s' /\
+  (exists rest, bfile s' ++ rest = extend (bfile s) (hz (b_start b)) (bs_hdrs b)) /\
+  (exists rest, ffile s' ++ rest = extend (ffile s) (hz (b_start b)) (fs_hdrs f)) /\
+  (length (bfile s) <= length (bfile s'))%nat /\ (length (ffile s) <= length (ffile s'))%nat /\
+  (fl_rb fl = false ->
+     Z.of_nat (length (bfile s')) - Z.of_nat (length (ffile s')) <=
+     Z.of_nat (length (bfile s)) - Z.of_nat (length (ffile s)) /\
+     (length (bfile s') = length (bfile s) \/ length (bfile s') = length (ffile s'))) /\
+  (valid_chain P (bfile s) -> valid_chain P (bfile s')) /\
+  validate_filters_from P (skipn (length (ffile s)) (ffile s')) (Z.of_nat (length (ffile s))) = true /\
+  (r = Success ->
+     bfile s' = extend (bfile s) (hz (b_start b)) (bs_hdrs b) /\
+     ffile s' = extend (ffile s) (hz (b_start b)) (fs_hdrs f) /\
+     hz (b_end b) < Z.of_nat (length (ffile s')) /\
+     (valid_chain P (bfile s) -> forall fl', import P s' b f bs fl' = (Success, s'))).
+
+Lemma extend_below {A} (old : list A) st file :
+  st + Z.of_nat (length file) - 1 < Z.of_nat (length old) -> extend old st file = old.
+Proof.
+  intros Hb. unfold extend.
+  destruct ((Z.of_nat (length old) - st <? 0) || (Z.of_nat (length old) - st >? Z.of_nat (length file))) eqn:E;
+    [reflexivity|].
+  rewrite skipn_all2 by lia. now rewrite app_nil_r.
+Qed.
+
+Lemma post_unchanged P b f bs fl s r :
+  stores_wf s ->
+  (r = Success -> hz (b_end b) < Z.of_nat (length (ffile s)) /\ length (fs_hdrs f) = length (bs_hdrs b) /\
+                  forall fl', import P s b f bs fl' = (Success, s)) ->
+  import_post P b f bs fl s r s.
+Proof.
+  intros Hwf HS. unfold import_post.
+  split; [assumption|]. split; [apply extend_prefix|]. split; [apply extend_prefix|].
+  split; [lia|]. split; [lia|]. split; [intros _; split; [lia | now left]|]. split; [tauto|].
+  split; [now rewrite skipn_all|].
+  intros Hr. destruct (HS Hr) as (Hen & Hlen & Hid).
+  pose proof (wf_f_le_b s Hwf) as Hle. unfold b_end, b_count in Hen. cbn [hz] in Hen.
+  split; [symmetry; apply extend_below; lia|].
+  split; [symmetry; apply extend_below; lia|].
+  split; [exact Hen | intros _; exact Hid].
+Qed.
+
+(* ------------------------------------------------------------------ *)
+(* Block store ahead of the filter store *)
+
+(* any wf pair of stores: what a passed continuity check says (m = filter
+   store length = effective tip + 1) *)
+Lemma continuity_facts s b f :
+  stores_wf s -> continuity s b f = true ->
+  let m := Z.of_nat (length (ffile s)) in
+  let st := hz (b_start b) in let en := hz (b_end b) in
+  st <= m /\
+  (st < m -> verify_at s b f (Ht st) VBoth = true) /\
+  (st < m -> st < Z.min (m - 1) en -> verify_at s b f (Ht (Z.min (m - 1) en)) VBoth = true).
+Proof.
+  intros Hwf Hc. pose proof (wf_tips s Hwf) as [Hbt [y Hft]]. pose proof (wf_f_le_b s Hwf) as Hle.
+  rewrite (continuity_tips _ _ _ _ _ _ _ Hbt Hft) in Hc. unfold cont_expr in Hc. cbn zeta.
+  set (n := Z.of_nat (length (bfile s))) in *. set (m := Z.of_nat (length (ffile s))) in *.
+  replace (Z.min (n - 1) (m - 1)) with (m - 1) in Hc by lia.
+  destruct (hz (b_start b) >? m - 1 + 1) eqn:E1; [discriminate|].
+  split; [lia|].
+  destruct (hz (b_start b) >? m - 1) eqn:E2.
+  { split; intros; lia. }
+  apply andb_true_iff in Hc. destruct Hc as [Hc _].
+  apply andb_true_iff in Hc. destruct Hc as [H1 H2].
+  split; [intros _; exact H1|].
+  intros _ Hlt. destruct (Z.min (m - 1) (hz (b_end b)) >? hz (b_start b)) eqn:E3; [exact H2 | lia].
+Qed.
+
+(* the stored chain and the validated file agree at a height: they agree at
+   every height of the file below it (both are hash-linked) *)
+Lemma block_overlap_equal P s b B de :
+  valid_chain P (bfile s) -> validate_blocks P s b B = true ->
+  hash_inj (bfile s ++ bs_hdrs b) -> 0 <= hz (b_start b) ->
+  verify_block_at s b (Ht de) = true ->
+  forall h, hz (b_start b) <= h <= de -> verify_block_at s b (Ht h) = true.
+Proof.
+  intros Hold Hvb Hinj Hst Hv.
+  destruct (validate_blocks_chain _ _ _ _ Hvb) as [Hchain _].
+  apply valid_chain_iff in Hold.
+  set (st := hz (b_start b)) in *.
+  assert (Hd : forall d : nat, st <= de - Z.of_nat d ->
+            exists z, nthZ (bs_hdrs b) (de - Z.of_nat d - st) = Some z /\ nthZ (bfile s) (de - Z.of_nat d) = Some z).
+  { induction d as [|d IH]; intros Hge.
+    - apply verify_block_at_iff in Hv. destruct Hv as (x & y & Hx & Hy & He). fold st in Hx.
+      assert (x = y).
+      { apply Hinj; [| | exact He].
+        - apply in_or_app. right. apply nthZ_some in Hx. destruct Hx as [_ Hx]. now apply nth_error_In in Hx.
+        - apply in_or_app. left. apply nthZ_some in Hy. destruct Hy as [_ Hy]. now apply nth_error_In in Hy. }
+      subst y. exists x. replace (de - Z.of_nat 0) with de by lia. now split.
+    - destruct (IH ltac:(lia)) as (z & Hz1 & Hz2).
+      pose proof (nthZ_lt _ _ _ Hz1) as L1. pose proof (nthZ_lt _ _ _ Hz2) as L2.
+      set (i := de - Z.of_nat (S d)) in *.
+      replace (de - Z.of_nat d) with (i + 1) in * by (unfold i; lia).
+      destruct (nthZ_is_some (bs_hdrs b) (i - st)) as [x Hx]; [lia|].
+      destruct (nthZ_is_some (bfile s) i) as [y Hy]; [lia|].
+      exists x. split; [exact Hx|]. rewrite Hy. f_equal. symmetry.
+      assert (Hx' := Hx). assert (Hy' := Hy). assert (Hz1' := Hz1). assert (Hz2' := Hz2).
+      replace (i - st) with (Z.of_nat (Z.to_nat (i - st))) in Hx' by lia.
+      replace (i + 1 - st) with (Z.of_nat (S (Z.to_nat (i - st)))) in Hz1' by lia.
+      replace i with (Z.of_nat (Z.to_nat i)) in Hy' by lia.
+      replace (i + 1) with (Z.of_nat (S (Z.to_nat i))) in Hz2' by lia.
+      rewrite nthZ_nth_error in Hx', Hz1', Hy', Hz2'.
+      pose proof (Hchain _ x z Hx' Hz1') as L3. apply pair_ok_link in L3. cbn [fst] in L3.
+      pose proof (Hold _ y z Hy' Hz2') as L4. apply pair_ok_link in L4. cbn [fst] in L4.
+      apply Hinj; [| | congruence].
+      + apply in_or_app. right. now apply nth_error_In in Hx'.
+      + apply in_or_app. left. now apply nth_error_In in Hy'. }
+  intros h Hh. destruct (Hd (Z.to_nat (de - h)) ltac:(lia)) as (z & Hz1 & Hz2).
+  replace (de - Z.of_nat (Z.to_nat (de - h))) with h in * by lia.
+  apply verify_block_at_iff. exists z, z. fold st. auto.
+Qed.
+
+(* a successful import's result, imported again *)
+Lemma import_repeat P s s2 b f bs :
+  stores_wf s2 -> checks P s b f bs = true -> 0 <= hz (b_start b) ->
+  hz (b_start b) <= Z.of_nat (length (ffile s)) <= Z.of_nat (length (bfile s)) ->
+  Z.of_nat (length (ffile s)) <= hz (b_end b) ->
+  (forall h, hz (b_start b) <= h <= hz (b_end b) -> h < Z.of_nat (length (bfile s)) ->
+     verify_block_at s b (Ht h) = true) ->
+  (hz (b_start b) < Z.of_nat (length (ffile s)) -> verify_filter_at s b f (Ht (hz (b_start b))) = true) ->
+  bfile s2 = extend (bfile s) (hz (b_start b)) (bs_hdrs b) ->
+  ffile s2 = extend (ffile s) (hz (b_start b)) (fs_hdrs f) ->
+  hz (b_end b) < Z.of_nat (length (ffile s2)) ->
+  forall fl', import P s2 b f bs fl' = (Success, s2).
+Proof.
+  intros Hwf2 Hck Hst Hstm Hmen Hblk Hflt Hb2 Hf2 Hen2 fl'.
+  destruct (checks_facts _ _ _ _ _ Hck) as (Hne & Hlen & _).
+  set (n := Z.of_nat (length (bfile s))) in *. set (m := Z.of_nat (length (ffile s))) in *.
+  set (st := hz (b_start b)) in *.
+  assert (Hend : hz (b_end b) = st + Z.of_nat (length (bs_hdrs b)) - 1) by reflexivity.
+  rewrite extend_alt in Hb2 by (fold n; lia). fold n in Hb2.
+  rewrite extend_alt in Hf2 by (fold m; lia). fold m in Hf2.
+  set (kN := Z.to_nat (n - st)) in *. set (kF := Z.to_nat (m - st)) in *.
+  assert (EstN : st = n - Z.of_nat kN) by (unfold kN; lia).
+  assert (EstF : st = m - Z.of_nat kF) by (unfold kF; lia).
+  apply (import_within P s s2 b f bs fl' Hwf2 Hck).
+  - apply (validate_blocks_after P s s2 b kN _ Hb2 EstN Hst).
+  - exact Hen2.
+  - apply (verify_at_after s s2 b f kN kF st Hb2 Hf2 EstN EstF Hlen); [fold st; lia | |].
+    + intros Hl. apply Hblk; [lia | exact Hl].
+    + intros Hl. apply Hflt. exact Hl.
+  - intros Hgt.
+    apply (verify_at_after s s2 b f kN kF (hz (b_end b)) Hb2 Hf2 EstN EstF Hlen); [fold st; lia | |].
+    + intros Hl. apply Hblk; [lia | exact Hl].
+    + intros Hl. fold m in Hl. lia.
+Qed.
+
+Lemma import_block_ahead P s b f bs fl r s' :
+  stores_wf s -> (length (ffile s) < length (bfile s))%nat -> 0 <= hz (b_start b) ->
+  NoDup (map hid (extend (bfile s) (hz (b_start b)) (bs_hdrs b))) ->
+  hash_inj (bfile s ++ bs_hdrs b) -> retarget_ok P ->
+  import P s b f bs fl = (r, s') ->
+  import_post P b f bs fl s r s'.
+Proof.
+  intros Hwf Hlt Hst Hnd Hinj HR Him.
+  destruct (import_checks _ _ _ _ _ _ _ _ Him) as [[Hr Hs]|Hck].
+  { subst r s'. apply post_unchanged; [assumption | discriminate]. }
+  destruct (checks_facts _ _ _ _ _ Hck) as (Hne & Hlen & Hfst & Hcont & Hvb & Hvf).
+  destruct (continuity_facts s b f Hwf Hcont) as (Hstm & Hv0 & Hv1). cbn zeta in Hstm, Hv0, Hv1.
+  pose proof (wf_tips s Hwf) as [Hbt [y Hft]].
+  rewrite (import_after_checks _ _ _ _ _ _ Hck) in Him.
+  unfold regions in Him. rewrite Hbt, Hft in Him.
+  set (n := Z.of_nat (length (bfile s))) in *. set (m := Z.of_nat (length (ffile s))) in *.
+  set (st := hz (b_start b)) in *. set (len := Z.of_nat (length (bs_hdrs b))) in *.
+  assert (Hend : hz (b_end b) = st + len - 1) by reflexivity.
+  assert (Hmn : m < n) by (unfold m, n; lia).
+  assert (Hm1 : 1 <= m).
+  { destruct Hwf as [_ W2 _ _ _ _ _]. unfold m. destruct (ffile s); [congruence | cbn [length]; lia]. }
+  assert (HB : 1 <= eff_batch bs) by (unfold eff_batch; destruct (bs <=? 0) eqn:E; lia).
+  replace (n - 1 >? m - 1) with true in Him by lia.
+  cbn [r_exists r_start r_end r_v r_a] in Him.
+  replace (negb (n - 1 =? m - 1)) with true in Him by lia. cbn [andb] in Him.
+  replace (Z.min (n - 1) (m - 1) + 1) with m in Him by lia.
+  replace (Z.max (n - 1) (m - 1)) with (n - 1) in Him by lia.
+  replace (n - 1 + 1) with n in Him by lia.
+  set (de := Z.min (n - 1) (hz (b_end b))) in *.
+  assert (Hdec : (n <= hz (b_end b) -> de = n - 1) /\ (hz (b_end b) < n -> de = hz (b_end b)) /\
+                 de <= hz (b_end b) /\ de < n) by (unfold de; lia).
+  clearbody de.
+  (* the verification facts every later import needs *)
+  assert (Hsame : forall fl', hz (b_end b) < m -> import P s b f bs fl' = (Success, s)).
+  { intros fl' Hen. apply (import_within P s s b f bs fl' Hwf Hck eq_refl Hen).
+    - apply Hv0. fold st. lia.
+    - intros Hgt. replace (hz (b_end b)) with (Z.min (m - 1) (hz (b_end b))) by lia.
+      apply Hv1; fold st; lia. }
+  destruct (m <=? de) eqn:Edv.
+  2:{ (* the file lies within both stores: nothing to do *)
+      replace (n <=? hz (b_end b)) with false in Him by lia.
+      inversion Him; subst r s'. apply post_unchanged; [assumption|].
+      intros _. split; [fold m; lia|]. split; [exact Hlen|].
+      intros fl'. apply Hsame. lia. }
+  assert (Hde : m <= de /\ de <= st + len - 1 /\ de < n) by lia.
+  destruct (verify_at s b f (Ht de) VBlock) eqn:Ev.
+  2:{ inversion Him; subst r s'. apply post_unchanged; [assumption | discriminate]. }
+  cbn [verify_at] in Ev.
+  (* phase 1: the filter store catches up *)
+  unfold append_region at 1 in Him. unfold ix_of_height in Him. cbn [hz] in Him. fold st in Him.
+  destruct (append_loop (S (length (bs_hdrs b))) fl (mkC 0 0) s b f (Ht m) (Ix (de - st)) (eff_batch bs) AFilter)
+    as [[r1 s1] c1] eqn:E1.
+  assert (HI0 : InvF f (bfile s) (ffile s) st m de s m).
+  { unfold InvF. split; [assumption|]. repeat split; try reflexivity; lia. }
+  destruct (loopF_ok b f fl (eff_batch bs) (bfile s) (ffile s) st len m de
+              eq_refl eq_refl eq_refl HB Hlen Hfst Hstm ltac:(lia) ltac:(fold n; lia)
+              (S (length (bs_hdrs b))) (mkC 0 0) s m r1 s1 c1 HI0 ltac:(fold len; lia) E1) as [HP1 HS1].
+  destruct HP1 as (Q1 & Q2 & [rf Q3] & Q4 & Q5).
+  assert (Hext_f : extend (ffile s) st (fs_hdrs f) = ffile s ++ skipn (Z.to_nat (m - st)) (fs_hdrs f)).
+  { apply extend_app. fold m. rewrite Hlen. fold len. lia. }
+  assert (Hvf' : validate_filters_from P (fs_hdrs f) st = true).
+  { unfold validate_filters in Hvf. now rewrite Hfst in Hvf. }
+  (* facts for a repeated import *)
+  assert (Hblk : valid_chain P (bfile s) -> forall h, st <= h <= de -> verify_block_at s b (Ht h) = true).
+  { intros Hold. now apply (block_overlap_equal P s b (eff_batch bs) de). }
+  assert (Hflt : st < m -> verify_filter_at s b f (Ht st) = true).
+  { intros Hl. specialize (Hv0 Hl). cbn [verify_at] in Hv0. apply andb_true_iff in Hv0. tauto. }
+  assert (Hrepeat : valid_chain P (bfile s) -> forall s2, stores_wf s2 ->
+            bfile s2 = extend (bfile s) st (bs_hdrs b) -> ffile s2 = extend (ffile s) st (fs_hdrs f) ->
+            hz (b_end b) < Z.of_nat (length (ffile s2)) ->
+            forall fl', import P s2 b f bs fl' = (Success, s2)).
+  { intros Hold s2 Hwf2 Hb2 Hf2 Hen2. clear Hv0 Hv1 Hsame Hcont HI0 E1 Him.
+    apply (import_repeat P s s2 b f bs Hwf2 Hck Hst); try assumption.
+    - fold st m n. lia.
+    - fold m. lia.
+    - fold st n. intros h Hh Hl. apply Hblk; [assumption | lia].  }
+  assert (HvalidL : verify_block_at s b (Ht (n - 1)) = true -> valid_chain P (bfile s) ->
+                    valid_chain P (extend (bfile s) st (bs_hdrs b))).
+  { intros Hvat Hold. apply (extend_valid_gen P s b (eff_batch bs)); try assumption. intros _ _. exact Hvat. }
+  clear Hv0 Hv1 Hblk Hflt Hsame Hcont Hvb Hck Hvf HI0 Hbt Hft E1.
+  destruct r1.
+  2:{ (* phase 1 failed: block store untouched, filter store a prefix *)
+      inversion Him; subst r s'. unfold import_post. fold st.
+      split; [assumption|]. split; [rewrite Q2; apply extend_prefix|].
+      split; [exists rf; now rewrite Hext_f|].
+      split; [rewrite Q2; lia|]. split; [assumption|].
+      split; [intros _; rewrite Q2; split; [lia | now left]|].
+      split; [now rewrite Q2|].
+      split; [apply (filters_validated P (ffile s) (ffile s1) (fs_hdrs f) st rf); try assumption; now rewrite Hext_f|].
+      discriminate. }
+  destruct (HS1 eq_refl) as (I1 & I2 & I3 & I4 & I5). clear HS1.
+  destruct (n <=? hz (b_end b)) eqn:Enw.
+  - (* phase 2: both stores are extended above the block tip *)
+    assert (Hden : de = n - 1) by lia.
+    unfold append_region in Him. unfold ix_of_height in Him. cbn [hz] in Him. fold st in Him.
+    rewrite Hend in Him. replace (st + len - 1 - st) with (len - 1) in Him by lia.
+    destruct (append_loop (S (length (bs_hdrs b))) fl c1 s1 b f (Ht n) (Ix (len - 1)) (eff_batch bs) ABoth)
+      as [[r2 s2] c2] eqn:E2.
+    inversion Him; subst r2 s2.
+    assert (Hext_b : extend (bfile s) st (bs_hdrs b) = bfile s ++ skipn (Z.to_nat (n - st)) (bs_hdrs b)).
+    { apply extend_app. fold n len. lia. }
+    rewrite Hext_b in Hnd.
+    assert (Hl1 : Z.of_nat (length (ffile s1)) = n) by lia.
+    assert (HI2 : Inv b f (bfile s) (ffile s1) st (st + len - 1) n s1 n).
+    { unfold Inv. split; [assumption|]. rewrite Q2. fold n. repeat split; try reflexivity; try assumption; lia. }
+    destruct (loop_ok b f fl (eff_batch bs) (bfile s) (ffile s1) st len (st + len - 1) n
+                eq_refl eq_refl eq_refl eq_refl HB Hlen Hfst ltac:(lia) ltac:(lia) Hnd
+                (S (length (bs_hdrs b))) c1 s1 n r s' c2 HI2 ltac:(fold len; lia) E2) as [HP2 HS2].
+    destruct HP2 as (R1 & [rb R2] & [rf2 R3] & R4 & R5 & R6 & R7).
+    replace (de + 1) with n in I5 by lia.
+    assert (Hvat : verify_block_at s b (Ht (n - 1)) = true) by (rewrite <- Hden; exact Ev).
+    unfold import_post. fold st.
+    split; [assumption|]. split; [exists rb; now rewrite Hext_b|].
+    split; [exists rf2; rewrite Hext_f, R3; exact I5|].
+    split; [assumption|]. split; [lia|].
+    split; [intros Hrb; specialize (R7 Hrb); split; [lia | now right]|].
+    split; [intros Hold; specialize (HvalidL Hvat Hold); rewrite Hext_b, <- R2 in HvalidL;
+            now apply valid_chain_prefix in HvalidL|].
+    split; [apply (filters_validated P (ffile s) (ffile s') (fs_hdrs f) st rf2); try assumption; [|lia];
+            rewrite Hext_f, R3; exact I5|].
+    intros Hr. destruct (HS2 Hr) as (_ & J2 & J3 & _ & J5 & J6).
+    replace (Z.to_nat (st + len - 1 + 1 - st)) with (length (bs_hdrs b)) in J5 by lia.
+    replace (Z.to_nat (st + len - 1 + 1 - st)) with (length (fs_hdrs f)) in J6 by lia.
+    rewrite skipn_all, app_nil_r in J5, J6.
+    assert (Hb' : bfile s' = extend (bfile s) st (bs_hdrs b)) by (rewrite Hext_b; exact J5).
+    assert (Hf' : ffile s' = extend (ffile s) st (fs_hdrs f)) by (rewrite Hext_f, J6; exact I5).
+    split; [exact Hb'|]. split; [exact Hf'|]. split; [lia|].
+    intros Hold. apply (Hrepeat Hold); try assumption. lia.
+  - (* the file ends at or below the block tip: only the filter store grew *)
+    inversion Him; subst r s'.
+    assert (Hden : de = hz (b_end b)) by lia.
+    replace (Z.to_nat (de + 1 - st)) with (length (fs_hdrs f)) in I5 by lia.
+    rewrite skipn_all, app_nil_r in I5.
+    assert (Hb' : bfile s1 = extend (bfile s) st (bs_hdrs b)).
+    { rewrite Q2. symmetry. apply extend_below. fold n len. lia. }
+    assert (Hf' : ffile s1 = extend (ffile s) st (fs_hdrs f)) by (rewrite Hext_f; exact I5).
+    unfold import_post. fold st.
+    split; [assumption|]. split; [exists []; now rewrite app_nil_r|].
+    split; [exists []; now rewrite app_nil_r|].
+    split; [rewrite Q2; lia|]. split; [assumption|].
+    split; [intros _; rewrite Q2; split; [lia | now left]|].
+    split; [now rewrite Q2|].
+    split; [apply (filters_validated P (ffile s) (ffile s1) (fs_hdrs f) st []); try assumption; now rewrite app_nil_r|].
+    intros _. split; [exact Hb'|]. split; [exact Hf'|]. split; [lia|].
+    intros Hold. apply (Hrepeat Hold); try assumption. lia.
+Qed.
+
+(* ------------------------------------------------------------------ *)
+(* The full statement: every height difference the store invariant allows *)
+
+Lemma import_full P s b f bs fl r s' :
+  stores_wf s -> 0 <= hz (b_start b) ->
+  NoDup (map hid (extend (bfile s) (hz (b_start b)) (bs_hdrs b))) ->
+  hash_inj (bfile s ++ bs_hdrs b) -> retarget_ok P ->
+  import P s b f bs fl = (r, s') ->
+  import_post P b f bs fl s r s'.
+Proof.
+  intros Hwf Hst Hnd Hinj HR Him.
+  destruct (le_lt_eq_dec _ _ (wf_f_le_b s Hwf)) as [Hlt|Heq].
+  - now apply (import_block_ahead P s b f bs fl r s').
+  - symmetry in Heq.
+    destruct (import_equal_heights _ _ _ _ _ _ _ _ Hwf Heq Hst Hnd Him) as (Hwf' & Hle & Hcp & HS).
+    destruct Hcp as (Hb & Hf & Hlb & Hlf & Hrb).
+    unfold import_post.
+    split; [assumption|]. split; [assumption|]. split; [assumption|]. split; [assumption|]. split; [assumption|].
+    split; [intros Hrbf; specialize (Hrb Hrbf); split; [lia | now right]|].
+    split; [now apply (import_chain_valid_equal P s b f bs fl r s')|].
+    split.
+    { destruct (import_checks _ _ _ _ _ _ _ _ Him) as [[_ Hs]|Hck]; [subst s'; now rewrite skipn_all|].
+      destruct (checks_facts _ _ _ _ _ Hck) as (_ & _ & Hfst & _ & _ & Hvf).
+      unfold validate_filters in Hvf. rewrite Hfst in Hvf. destruct Hf as [rest Hrest].
+      now apply (filters_validated P (ffile s) (ffile s') (fs_hdrs f) (hz (b_start b)) rest). }
+    intros Hr. destruct (HS Hr) as (H1 & H2 & H3 & H4).
+    split; [assumption|]. split; [assumption|]. split; [lia|].
+    intros _. subst r. now apply (import_idem_equal P s b f bs fl s').
+Qed.
